@@ -258,6 +258,7 @@ def _config(w: World) -> Dict[str, Any]:
         'latency': [ch.choice(gen.PAUSES, 'cfg.pre'), ch.choice(gen.PAUSES, 'cfg.post')],
         'error_cls': 'custom' if ch.flag(1, 4, 'cfg.error_cls') else 'base',
         'client_hooks': ch.flag(1, 4, 'cfg.client_hooks'), 'server_hooks': ch.flag(1, 4, 'cfg.server_hooks'),
+        'max_batch': ch.choice([None, None, 1, 2, 3, 4, 8], 'cfg.max_batch'),
     }
     if cfg['server_async']:
         cfg['flavour'] = ch.choice(['async', 'mixed', 'sync'], 'cfg.flavour')
@@ -272,18 +273,22 @@ def _client_kwargs(cfg: Dict[str, Any]) -> Dict[str, Any]:
     return kw
 
 
-def _dispatcher_kwargs(cfg: Dict[str, Any]) -> Dict[str, Any]:
+def _dispatcher_kwargs(cfg: Dict[str, Any], n: int = 1) -> Dict[str, Any]:
+    kw: Dict[str, Any] = {}
     if cfg.get('server_hooks'):
         from ..hooks import server_hooks
-        return server_hooks()
-    return {}
+        kw.update(server_hooks())
+    # a batch-size limit that the traffic of this run stays within: it must not be noticed
+    if cfg.get('max_batch') is not None and cfg['max_batch'] >= n:
+        kw['max_batch_size'] = cfg['max_batch']
+    return kw
 
 
-def _stack(w: World, cfg: Dict[str, Any], suffix: str) -> Stack:
+def _stack(w: World, cfg: Dict[str, Any], suffix: str, n: int = 1) -> Stack:
     seed_generators(w)
     script = [{'pre': cfg['latency'][0], 'post': cfg['latency'][1]}] * 8
     return Stack(w, cfg['client_async'], cfg['server_async'], cfg['flavour'],
-                 client_kwargs=_client_kwargs(cfg), dispatcher_kwargs=_dispatcher_kwargs(cfg),
+                 client_kwargs=_client_kwargs(cfg), dispatcher_kwargs=_dispatcher_kwargs(cfg, n),
                  script=script, suffix=suffix)
 
 
@@ -432,7 +437,7 @@ def fam_batch(w: World) -> None:
     hand_ids = ch.shuffle(gen.REQ_IDS, 'hand_ids')[:n]
     results = []
     for rnd, notation in enumerate((first, second)):
-        st = _stack(w, cfg, suffix=str(rnd))
+        st = _stack(w, cfg, suffix=str(rnd), n=n)
         ctx = {'notation': notation, 'id_gen': cfg['id_gen'], 'kind': 'batch', 'strict': cfg['strict'],
                'all_notifications': all(c.notification for c in calls)}
         op = f'batch.{notation}[{n}]'
@@ -535,7 +540,7 @@ def fam_batch_reuse(w: World) -> None:
     _plan_pauses(w, [c for cs in plan for c in cs])
     w.scenario = {'cfg': cfg, 'rounds': [[c.describe() for c in cs] for cs in plan], 'notation': notation}
     w.nontrivial = True
-    st = _stack(w, cfg, suffix='')
+    st = _stack(w, cfg, suffix='', n=sum(len(cs) for cs in plan))
     b = st.client.batch
     p = b.proxy
     so_far: List[gen.LogicalCall] = []
@@ -593,7 +598,7 @@ def fam_concurrent(w: World) -> None:
     seed_generators(w)
     script = [{'pre': ch.choice(gen.PAUSES, 'net.pre'), 'post': ch.choice(gen.PAUSES, 'net.post')} for _ in range(n)]
     st = Stack(w, True, cfg['server_async'], cfg['flavour'],
-               client_kwargs=_client_kwargs(cfg), dispatcher_kwargs=_dispatcher_kwargs(cfg), script=script)
+               client_kwargs=_client_kwargs(cfg), dispatcher_kwargs=_dispatcher_kwargs(cfg, 8), script=script)
     cl = st.client
     results: Dict[int, Tuple[Any, ...]] = {}
 
